@@ -7,8 +7,10 @@
       - every numpy primitive used by the code (take, delete, insert, append/concatenate, fancy indexing, lexsort,
         unique) is "compute an index plan from the axis length and the argument, then gather": [plan_*] + [pick];
         each array of the object is transformed by its own call, as in the source;
-      - numpy.insert with a *scalar* index moves axis 0 of the inserted block to the insertion axis ([moveaxis0]) —
-        modelled as numpy does it, it is the source of a finding;
+      - insert_<axis>/incorp_<axis> turn a *scalar* index into a one-element list before calling numpy.insert, so the
+        inserted block goes in as it is on every array axis ([np_insert_t]); the former code passed the scalar on and
+        numpy.insert then moved axis 0 of the block to the insertion axis ([moveaxis0], [old_np_insert_t]: kept only as
+        the regression witness of a repaired finding);
       - the square classes act on both taxa axes for select/delete/reorder/adjoin/append and on axis 0 only for
         insert/incorp/concat, as the source does;
       - DenseSquareTaxaTraitMatrix inherits the non-mutating taxa/trait operations of its two parents, which rebuild the
@@ -141,8 +143,18 @@ Fixpoint bcast (tsh sh : list nat) (t : tensor) : option tensor :=
   | _, _ => None
   end.
 
-(** numpy.insert(arr, obj, values, axis = d) on tensors with explicit shapes: new tensor and new shape *)
+(** the mat update of insert_<axis>/incorp_<axis>: a scalar index is first replaced by the one-element list [obj]
+    (which has the same insertion plan: the whole block goes before that position), then
+    numpy.insert(arr, obj, values, axis = d) with a non-scalar index: new[..., positions, ...] = values, broadcast off
+    the axis.  New tensor and new shape. *)
 Definition np_insert_t (d : nat) (o : objarg) (sh : list nat) (t : tensor) (vsh : list nat) (v : tensor) : option (tensor * list nat) :=
+  let n := nth d sh O in
+  let k := nth d vsh O in
+  match plan_insert n k o, bcast (upd d k sh) vsh v with
+  | Some ps, Some v' => Some (t_pick d ps (t_cat d t v'), upd d (length ps) sh)
+  | _, _ => None end.
+(** FORMER code (before the repair of C03-scalar-insert-moveaxis): the scalar went to numpy.insert unchanged *)
+Definition old_np_insert_t (d : nat) (o : objarg) (sh : list nat) (t : tensor) (vsh : list nat) (v : tensor) : option (tensor * list nat) :=
   let n := nth d sh O in
   match o, d with
   | OInt i, S _ =>                                       (* scalar index on an inner axis: values = moveaxis(values, 0, d) *)
@@ -312,6 +324,11 @@ Definition op_append (c : cls) (s : st) (k : nat) (v : operand) : res st :=
 Definition op_insert (c : cls) (s : st) (k : nat) (o : objarg) (v : operand) : res st :=
   bind (pre_binary c s k v (pol_ins (sch c k))) (fun g =>
   match np_insert_t (taxis c k) o (shape s) (data s) (o_shape v) (o_data v),
+        join_labs (fun gl l => np_insert o gl l) (labs (ax_of s k)) g with
+  | Some (t, sh), Some l => construct c sh t (new_axes c s k l) | _, _ => Err end).
+Definition old_op_insert (c : cls) (s : st) (k : nat) (o : objarg) (v : operand) : res st :=
+  bind (pre_binary c s k v (pol_ins (sch c k))) (fun g =>
+  match old_np_insert_t (taxis c k) o (shape s) (data s) (o_shape v) (o_data v),
         join_labs (fun gl l => np_insert o gl l) (labs (ax_of s k)) g with
   | Some (t, sh), Some l => construct c sh t (new_axes c s k l) | _, _ => Err end).
 Definition op_incorp (c : cls) (s : st) (k : nat) (o : objarg) (v : operand) : res st :=
